@@ -207,3 +207,7 @@ import props_c18
 import props_c19
 props_c18.register(_sys.modules[__name__])
 props_c19.register(_sys.modules[__name__])
+import props_c15
+props_c15.register(_sys.modules[__name__])
+import props_c14
+props_c14.register(_sys.modules[__name__])
